@@ -1,6 +1,6 @@
 (* Props/C08.v -- Collocation points lie in the declared domain, with declared counts and shapes. *)
 From Coq Require Import QArith List Arith Bool Lqa Lia ZArith Permutation.
-From JV Require Import Kit.Float Kit.Lists Gen.G_datagen Model.M_datagen Model.M_domain Inst.I_datagen Inst.I_domain Proofs.P_datagen Proofs.P_domain.
+From JV Require Import Kit.Float Kit.Lists Gen.G_datagen Model.M_datagen Model.M_domain Inst.I_datagen Inst.I_domain Proofs.P_datagen Proofs.P_domain Proofs.P_gridnd.
 Import ListNotations.
 Open Scope Q_scope.
 
@@ -19,6 +19,13 @@ Proof. exact (uniform_in_range a b u). Qed.
 Theorem C08_grid_count_and_range a b n x : a < b ->
   length (grid a b n) = n /\ (In x (grid a b n) -> a <= x /\ x < b).
 Proof. intro Hab. split; [apply grid_length|apply grid_points; exact Hab]. Qed.
+(* grid sampling in dimension d >= 2 (the mesh of d one-dimensional grids with n_side points each): exactly n_side^d
+   points -- n when n is a perfect d-th power, the only counts the source accepts -- every coordinate in its own [a_k, b_k) *)
+Theorem C08_grid_nd_count_and_range mins maxs n_side p k : length mins = length maxs ->
+  (forall j, (j < length mins)%nat -> nth j mins 0 < nth j maxs 0) ->
+  length (grid_nd mins maxs n_side) = (n_side ^ length mins)%nat /\
+  (In p (grid_nd mins maxs n_side) -> (k < length mins)%nat -> nth k mins 0 <= nth k p 0 /\ nth k p 0 < nth k maxs 0).
+Proof. intros Hl Hb. split; [exact (grid_nd_count mins maxs n_side Hl)|exact (grid_nd_in_box mins maxs n_side p k Hl Hb)]. Qed.
 (* border points lie exactly on their facet (order xmin, xmax, ymin, ymax) and vary only along it *)
 Theorem C08_border_points_on_facets (a0 b0 a1 b1 u : Q) k : a0 <= b0 -> a1 <= b1 -> 0 <= u -> u < 1 -> (k < 4)%nat ->
   let p := facet_point (nth k g_facet_table (0, false, 0, 0, 0)%nat) [a0; a1] [b0; b1] u in
@@ -58,6 +65,7 @@ Proof. exact arange_count_refuted. Qed.
 Print Assumptions regenerated_domain_ok.
 Print Assumptions C08_uniform_points_in_domain.
 Print Assumptions C08_grid_count_and_range.
+Print Assumptions C08_grid_nd_count_and_range.
 Print Assumptions C08_border_points_on_facets.
 Print Assumptions C08_batches_stay_in_the_store.
 Print Assumptions C08_batches_have_declared_length.
